@@ -402,9 +402,14 @@ pub async fn run_refs(cfg: RunCfg) -> RunResult {
                 // owner = the live branch with the longest name whose directory contains the path;
                 // objects without a live owner are leftovers of deleted / failed branches
                 let own = p.starts_with(&format!("tbl/tree/{}/", new_branch));
+                let owns = |o: &str, p: &str| {
+                    // an object is the branch's own iff it sits in one of the branch's table
+                    // directories; `tree/a/b/_transactions/x` is branch "a/b"'s, never branch "a"'s
+                    ["_versions", "_transactions", "data", "_deletions", "_indices", "_refs"].iter().any(|d| p.starts_with(&format!("tbl/tree/{}/{}/", o, d)))
+                };
                 let owner = refs
                     .keys()
-                    .filter(|o| !o.is_empty() && p.starts_with(&format!("tbl/tree/{}/", o)))
+                    .filter(|o| !o.is_empty() && owns(o.as_str(), p.as_str()))
                     // inside the deleted branch's own directory only a nested live branch can own the object
                     .filter(|o| !own || o.len() > new_branch.len())
                     .max_by_key(|o| o.len());
@@ -418,7 +423,10 @@ pub async fn run_refs(cfg: RunCfg) -> RunResult {
             }
         }
         // ---- every reference still reads what the model says ----
-        let chk = guarded(check_all_refs(&mut r, &refs, &tags, &clones, &what, &orphaned)).await;
+        // after operations that remove objects every version of every reference is re-read, so that
+        // damage is found (and attributed) at the step that caused it
+        let exhaustive = what.starts_with("cleanup") || what.starts_with("delete_branch");
+        let chk = guarded(check_all_refs(&mut r, &refs, &tags, &clones, &what, &orphaned, exhaustive)).await;
         if let Err(p) = chk {
             r.res.violate("C09", "panic", &format!("panic-in-check:{}", panic_sig(&p)), step, p);
         }
@@ -435,7 +443,7 @@ pub async fn run_refs(cfg: RunCfg) -> RunResult {
     res
 }
 
-async fn check_all_refs(r: &mut Runner, refs: &BTreeMap<String, RefModel>, tags: &BTreeMap<String, (String, u64)>, clones: &[(String, RefModel)], after: &str, orphaned: &[String]) {
+async fn check_all_refs(r: &mut Runner, refs: &BTreeMap<String, RefModel>, tags: &BTreeMap<String, (String, u64)>, clones: &[(String, RefModel)], after: &str, orphaned: &[String], exhaustive: bool) {
     let step = r.step;
     let party: Arc<Party> = r.fresh_party();
     let ctx = r.ctx.for_party(party);
@@ -479,7 +487,9 @@ async fn check_all_refs(r: &mut Runner, refs: &BTreeMap<String, RefModel>, tags:
         // one older version of the reference
         if model.versions.len() > 1 {
             let vs: Vec<u64> = model.versions.keys().cloned().collect();
-            let v = vs[r.rng.usize(vs.len())];
+            let pick = vs[r.rng.usize(vs.len())];
+            let todo: Vec<u64> = if exhaustive { vs.clone() } else { vec![pick] };
+            for v in todo {
             let rf: lance::dataset::refs::Ref = if name.is_empty() { v.into() } else { (name.as_str(), v).into() };
             match main.checkout_version(rf).await {
                 Ok(dv) => match scan_sorted(&dv).await {
@@ -491,6 +501,7 @@ async fn check_all_refs(r: &mut Runner, refs: &BTreeMap<String, RefModel>, tags:
                     Err(e) => r.res.violate("C09", "isolation", &format!("old-version-scan-error-after:{}", kind), step, format!("after {}: scan of {:?}@{} failed: {}", after, name, v, e)),
                 },
                 Err(e) => r.res.violate("C09", "isolation", &format!("old-version-unreadable-after:{}", kind), step, format!("after {}: {:?}@{} cannot be opened: {}", after, name, v, e)),
+            }
             }
         }
     }
